@@ -178,7 +178,7 @@ def witness(ex, w, p):
         return None
     m = s.model()
     wit = {'program': [[repr(k), a] for k, a in w.choices.items()], 'present': {}, 'answers': {}, 'ranks': {}, 'preds': {}}
-    for name in w.input_names:
+    for name in w.all_input_names:
         wit['present'][name] = bool(tm.model_value(m, tm.var('present:' + name, 'B')))
         wit.setdefault('defaults', {})[name] = bool(tm.model_value(m, tm.var('default:' + name, 'B'))) if w.defaults else False
         wit['answers'][name] = int(tm.model_value(m, tm.var('answer:' + name, 'I')))
@@ -207,7 +207,7 @@ def task(arg):
     holder = {}
 
     def body():
-        w = algo.World(bounds['N'], bounds['M'], bounds['D'], second_form=bounds.get('second_form', True), instanced=bounds.get('instanced', False))
+        w = algo.World(bounds['N'], bounds['M'], bounds['D'], second_form=bounds.get('second_form', True), instanced=bounds.get('instanced', False), two_copies=bounds.get('two_copies', False))
         w.req_a = bounds.get('req_a', max(1, bounds['N'] - 1))
         w.extra_requested = list(bounds.get('extra_requested', []))
         w.rank_names = set()
@@ -220,8 +220,12 @@ def task(arg):
         holder['w'] = w
         return check_path(algo, w, ex)
     try:
+        budget_s = float(os.environ.get('HV_ALGO_TASK_BUDGET', '900'))
         for p in ex.explore(body):
             out['paths'] += 1
+            if time.time() - t0 > budget_s:
+                # a changed solver can blow the exploration up: stop, keep what was found, say so
+                raise RuntimeError('task wall-clock budget of %ds exhausted after %d paths' % (budget_s, out['paths']))
             if p.cut or p.unsupported:
                 out['cut'] += 1
                 out['kinds']['cut:%s' % (p.cut or p.unsupported)] = out['kinds'].get('cut:%s' % (p.cut or p.unsupported), 0) + 1
@@ -260,7 +264,7 @@ def task(arg):
 
 def run_all(bounds):
     from . import algo
-    w = algo.World(bounds['N'], bounds['M'], bounds['D'], second_form=bounds.get('second_form', True), instanced=bounds.get('instanced', False))
+    w = algo.World(bounds['N'], bounds['M'], bounds['D'], second_form=bounds.get('second_form', True), instanced=bounds.get('instanced', False), two_copies=bounds.get('two_copies', False))
     tasks = []
     for a in range(w.n_actions):
         tgt = None
@@ -304,14 +308,18 @@ def run_property(pid, tier, technique_extra='', extra=None):
     A = dict(order='symbolic', n_modes=2, n_answers=2)
     B = dict(order='natural', n_modes=1, n_answers=3)
     Cdef = dict(order='natural', n_modes=1, n_answers=2, defaults=True)      # [DEFAULT]-provided inputs
+    # two numbered copies of one form requested together, lines reading their own copy's input by relative name
+    T2 = dict(N=1, M=0, D=1, req_a=1, second_form=True, instanced=True, two_copies=True, extra_requested=['fb:1'], order='natural', n_modes=1, n_answers=2)
+    if tier != 'quick':
+        os.environ.setdefault('HV_ALGO_TASK_BUDGET', '3600')
     if tier == 'quick':
-        configs = [dict(N=2, M=1, D=1, req_a=1, second_form=True, **A), dict(N=2, M=1, D=1, req_a=1, second_form=True, **B), dict(N=2, M=2, D=2, req_a=2, second_form=False, **Cdef)]
+        configs = [dict(N=2, M=1, D=1, req_a=1, second_form=True, **A), dict(N=2, M=1, D=1, req_a=1, second_form=True, **B), dict(N=2, M=2, D=2, req_a=2, second_form=False, **Cdef), T2]
     else:
         configs = [dict(N=2, M=1, D=1, req_a=1, second_form=True, order='symbolic', n_modes=3, n_answers=3),
                    dict(N=2, M=2, D=2, req_a=1, second_form=False, **A), dict(N=2, M=2, D=2, req_a=1, second_form=False, **B),
                    dict(N=2, M=2, D=2, req_a=2, second_form=False, **Cdef),
                    dict(N=2, M=1, D=1, req_a=1, second_form=True, instanced=True, **A),
-                   dict(N=3, M=1, D=1, req_a=2, second_form=False, **B)]
+                   dict(N=3, M=1, D=1, req_a=2, second_form=False, **B), T2]
     c = common.Check(pid, tier, 'bounded symbolic execution of the real Solver/DependencyTracker/ValueStore/InputStore on generated form programs: line behaviour, input presence, prompt answers and attempt order are SMT choices explored lazily to exhaustion; values are EUF terms' + technique_extra,
                      ['habutax.solver.Solver.solve/_attempt_field/_attempt_input/_add_form/_add_unattempted', 'habutax.solver.DependencyTracker.*', 'habutax.values.ValueStore', 'habutax.form.FormAccessor',
                       'habutax.inputs.InputStore.__getitem__/__setitem__/provides', 'habutax.fields.TypedField.value', 'habutax.inputs.IntegerInput.value/valid'])
@@ -350,7 +358,7 @@ def run_property(pid, tier, technique_extra='', extra=None):
         harness = {k: n for k, n in kinds.items() if k.startswith('harness:')}
         if harness:
             raise RuntimeError('harness exceptions: %s %s' % (harness, [s for r in results for s in r['samples'] if 'harness_exception' in s][:1]))
-        name = 'N=%d,M=%d,D=%d,second=%s,inst=%s,order=%s,modes=%s,answers=%s' % (cfgb['N'], cfgb['M'], cfgb['D'], cfgb.get('second_form'), cfgb.get('instanced', False), cfgb.get('order'), cfgb.get('n_modes'), cfgb.get('n_answers')) + (',defaults' if cfgb.get('defaults') else '')
+        name = 'N=%d,M=%d,D=%d,second=%s,inst=%s,order=%s,modes=%s,answers=%s' % (cfgb['N'], cfgb['M'], cfgb['D'], cfgb.get('second_form'), cfgb.get('instanced', False), cfgb.get('order'), cfgb.get('n_modes'), cfgb.get('n_answers')) + (',defaults' if cfgb.get('defaults') else '') + (',two-copies' if cfgb.get('two_copies') else '')
         # one obligation per explored path: "all assertions of <pid> hold on this end state"
         nviol = sum(d['count'] for r in results for d in r['viol'].get(pid, {}).values())
         c.obligations += tot_paths
